@@ -216,6 +216,7 @@ def validate_traces(
     init: str = "TInit",
     next_: str = "TNext",
     dfs: bool = False,
+    cfg_extra: str = "",
 ) -> tuple[list[Reject], dict]:
     """Validate recorded traces against a trace spec (EXTENDS TraceBatch).
 
@@ -229,7 +230,7 @@ def validate_traces(
         work.parent.mkdir(parents=True, exist_ok=True)
         work.write_text(json.dumps(chunk))
         cfg = (
-            f"INIT {init}\nNEXT {next_}\nPOSTCONDITION Post\nCHECK_DEADLOCK FALSE\n"
+            f"INIT {init}\nNEXT {next_}\nPOSTCONDITION Post\nCHECK_DEADLOCK FALSE\n" + cfg_extra
         )
         e = {"TRACE_FILE": str(work)}
         if env:
@@ -241,7 +242,7 @@ def validate_traces(
         if not m or (res.error not in (None,)):
             raise MachineryError(
                 f"trace validation run failed ({trace_module}, {res.error}):\n"
-                + res.output[-6000:]
+                + _errtail(res.output)
             )
         nt, nrej = int(m.group(1)), int(m.group(2))
         if nt != len(chunk):
@@ -264,6 +265,13 @@ def validate_traces(
 
 
 # --------------------------------------------------------------------------------------
+
+
+def _errtail(out: str) -> str:
+    i = out.find("Semantic errors")
+    if i < 0:
+        i = out.find("Error:")
+    return out[i:i + 3000] if i >= 0 else out[-2000:]
 
 
 def load_known_findings() -> list[dict]:
@@ -546,3 +554,36 @@ def main_wrapper(fn, prop: str, replay_fn=None):
     print(f"[{prop}] tier={tier} seed={seed} exit={rc} wall={time.time() - chk.t0:.1f}s "
           f"states={chk.states} traces={chk.traces} events={chk.events}")
     return rc
+
+
+# --------------------------------------------------------------------------------------
+# spec -> code: behaviours generated by TLC's simulator
+
+
+def simulate_behaviours(module: str, cfg_text: str, *, tag: str, num: int, depth: int, seed: int,
+                        timeout: int = 300):
+    """Runs `tlc -simulate file=...` and returns a list of behaviours, each a list of
+    (action_text, state_text) pairs (state 1 has action 'Init')."""
+    work = BUILD / f"sim-{tag}-{os.getpid()}"
+    if work.exists():
+        shutil.rmtree(work)
+    work.mkdir(parents=True)
+    res = run_tlc(module, cfg_text, tag=f"sim-{tag}", workers=1, timeout=timeout,
+                  simulate=f"file={work}/tr,num={num}", depth=depth, seed=seed)
+    out = []
+    for f in sorted(work.glob("tr_*")):
+        txt = f.read_text()
+        steps = []
+        for m in re.finditer(r"^\\\* <(.*?) line \d+, col \d+ to line \d+, col \d+ of module \w+>\nSTATE_\d+ ==\s*\n(.*?)(?=^\\\* <|\Z|^=====)", txt, re.M | re.S):
+            steps.append((m.group(1).strip(), m.group(2)))
+        if steps:
+            out.append(steps)
+    shutil.rmtree(work, ignore_errors=True)
+    if not out:
+        raise MachineryError(f"TLC simulation produced no behaviours ({module}):\n" + _errtail(res.output))
+    return out
+
+
+def tla_record_to_dict(txt: str) -> dict:
+    """'[type |-> 1, dur |-> 2, thin |-> 1]' -> {'type': 1, 'dur': 2, 'thin': 1} (ints only)"""
+    return {m.group(1): int(m.group(2)) for m in re.finditer(r"(\w+) \|-> (-?\d+)", txt)}
